@@ -50,7 +50,7 @@ func c16gaps(s string) [][2]int {
 }
 
 func TestZZBoundedC16(t *testing.T) {
-	fmt.Println("BOUNDED-BOUND: 40 statements covering every statement family and every raw-rune / raw-token site x every whitespace gap x {tab, LF, CR, CRLF, two spaces, block comment, line comment}")
+	fmt.Println("BOUNDED-BOUND: 48 statements covering every statement family and every raw-rune / raw-token site x every whitespace gap x {tab, LF, CR, CRLF, two spaces, block comment, line comment}")
 	corpus := []string{
 		`SELECT mean(value) FROM cpu WHERE host = 'a' AND time > now() - 1h GROUP BY time(5m), host fill(none) ORDER BY time DESC LIMIT 5 OFFSET 2 SLIMIT 3 SOFFSET 1 tz('UTC')`,
 		`SELECT value INTO db1.rp1.out FROM db0.rp0.cpu WHERE value > 1.5`,
@@ -75,7 +75,7 @@ func TestZZBoundedC16(t *testing.T) {
 		`SHOW SERIES CARDINALITY ON db`,
 		`SHOW SERIES EXACT CARDINALITY ON db FROM cpu`,
 		`SHOW GRANTS FOR u`,
-		`SHOW SHARDS`,
+		`SHOW SHARDS`, `SHOW STATS`, `SHOW DIAGNOSTICS`, `SHOW STATS FOR 'runtime'`, `SHOW USERS`, `SHOW QUERIES`, `SHOW SUBSCRIPTIONS`, `SHOW CONTINUOUS QUERIES`, `SHOW SHARD GROUPS`,
 		`CREATE DATABASE db WITH DURATION 1h REPLICATION 1 SHARD DURATION 30m NAME rp`,
 		`CREATE RETENTION POLICY rp ON db DURATION 1h REPLICATION 1 DEFAULT`,
 		`ALTER RETENTION POLICY rp ON db DURATION 2h REPLICATION 2 SHARD DURATION 1h DEFAULT`,
@@ -105,6 +105,25 @@ func TestZZBoundedC16(t *testing.T) {
 				first["corpus-statement-rejected"] = fmt.Sprintf("%q: %v", base, err0)
 			}
 			continue
+		}
+		// every statement followed by a second one: the statement parser must stop in front of the separator
+		if !strings.Contains(base, ";") {
+			total++
+			q2, err2 := ParseQuery(base + "; SHOW DATABASES")
+			switch {
+			case err2 != nil:
+				fails["separator:following-statement-rejected:"+strings.Fields(base)[0]]++
+				if first["separator:following-statement-rejected:"+strings.Fields(base)[0]] == "" {
+					first["separator:following-statement-rejected:"+strings.Fields(base)[0]] = fmt.Sprintf("%q: %v", base+"; SHOW DATABASES", err2)
+				}
+			case len(q2.Statements) != 2 || !reflect.DeepEqual(q0.Statements[0], q2.Statements[0]) && q0.Statements[0].String() != q2.Statements[0].String():
+				fails["separator:first-statement-differs:"+strings.Fields(base)[0]]++
+				if first["separator:first-statement-differs:"+strings.Fields(base)[0]] == "" {
+					first["separator:first-statement-differs:"+strings.Fields(base)[0]] = fmt.Sprintf("%q", base+"; SHOW DATABASES")
+				}
+			default:
+				accepted++
+			}
 		}
 		for _, g := range c16gaps(base) {
 			for name, r := range repl {
